@@ -342,7 +342,85 @@ def make_floats(spec: typing.Any):
     return _arity(h, nslots)
 
 
+# twins: composites that compare EQUAL (same name, version, bit length set) but differ in structure
+TWINS = [
+    (["struct", [["union", ["u8", "u16"]], "u8"]], ["struct", [["union", ["u16", "u8"]], "u8"]]),
+    (["struct", [["union", ["u8", "bool", "u16"]]]], ["struct", [["union", ["u16", "u8"]]]]),
+    (["struct", ["u8", "u8"]], ["struct", ["u16"]]),
+    (["union", ["u8", "u16"]], ["union", ["u16", "u8"]]),
+    (["struct", [["delim", ["struct", ["u8", "u16"]], 64], "u8"]], ["struct", [["delim", ["struct", ["u16", "u8", "u8"]], 64], "u8"]]),
+]
+
+
+def make_twins(pair: int, first: int):
+    """
+    Both twins serialised in ONE process (`first` first), with omitted fields (defaults) and explicit values: each must
+    encode by its own definition.
+    """
+    import pydsdl
+
+    specs = TWINS[pair]
+
+    def zero(s: typing.Any) -> typing.Any:
+        if isinstance(s, str):
+            return False if s == "bool" else 0
+        if s[0] == "struct":
+            return {"f%d" % i: zero(f) for i, f in enumerate(s[1])}
+        if s[0] == "union":
+            return {"f0": zero(s[1][0])}
+        return zero(s[1])
+
+    def concrete(k: int) -> typing.Any:
+        types = {}
+        for i in (0, 1):
+            T._counter[0] = 6000  # pylint: disable=protected-access  (identical generated names for both twins)
+            types[i] = T.build(specs[i])
+        if not (types[0] == types[1]):
+            return "harness: twins do not compare equal"
+        for i in (first, 1 - first):
+            full = zero(specs[i])
+            variants = [({}, full)]
+            if isinstance(full, dict) and len(full) > 1:
+                key = sorted(full)[-1]
+                v = dict(full)
+                v[key] = 7 if not isinstance(full[key], dict) else full[key]
+                variants.append(({key: v[key]}, v))
+            given, explicit = variants[k % len(variants)]
+            if specs[i][0] == "union" or (specs[i][0] == "delim" and specs[i][1][0] == "union"):
+                given = explicit
+            got = pydsdl.serialize(types[i], given)
+            n, nbits = S.encode(specs[i], explicit)
+            want = S.to_bytes(n, nbits)
+            if bytes(got) != bytes(want):
+                return "twin %d (%s): serialize(%r) = %s, its own definition says %s" % (
+                    i, T.spec_str(specs[i]), given, bytes(got).hex(), bytes(want).hex())
+            back = pydsdl.deserialize(types[i], got)
+            if back != S.roundtrip_value(specs[i], explicit):
+                return "twin %d: round trip gives %r" % (i, back)
+        return True
+
+    def h(k: int) -> typing.Any:
+        a = pick(k, 0, 1)
+        if a is None:
+            return None
+        from .. import textio
+
+        return textio.native(concrete, a)
+
+    return h
+
+
 def conditions(tier: str, seed: int) -> typing.List[Cond]:
+    out = _conditions(tier, seed)
+    for pi in range(len(TWINS)):
+        for first in (0, 1):
+            out.append(Cond(PROP, "c06.twins", make_twins, {"pair": pi, "first": first}, {"k": int}, kind="choice",
+                            assumptions=["two equal-comparing but structurally different composites serialised in one process "
+                                         "(defaults and explicit values)"], witness={"k": 0}, budget=120.0, need_exhaust=True))
+    return out
+
+
+def _conditions(tier: str, seed: int) -> typing.List[Cond]:
     thorough = tier == "thorough"
     rnd = random.Random(seed)
     out = []  # type: typing.List[Cond]
